@@ -189,7 +189,8 @@ namespace rkcommon {
     {
       const size_t size = count * sizeof(T);
 
-      if (cursor + size > buffer->size()) {
+      // compare against the remaining bytes: cursor + size can wrap around
+      if (cursor > buffer->size() || size > buffer->size() - cursor) {
         throw std::runtime_error("Attempt to read past end of BufferReader!");
       }
 
